@@ -509,4 +509,178 @@ theorem fine_interval_min_le_max (disp : Multiscale.Grid Val) (flags : Multiscal
   rw [he] at h
   exact ⟨lo, hi', congrArg Prod.fst h, congrArg Prod.snd h, hle⟩
 
+/-! ### 6. The block loop of `disparity_range` -/
+
+/-- the window `sliding_window` puts at index `(r - off, c - off)` is the window centred on `(r, c)`
+    (odd side `w = 2·off + 1`) -/
+theorem windowAt_centred (g : Multiscale.Grid Val) (w off r c : Nat) (hw : w = 2 * off + 1) :
+    windowAt g w (r - off) (c - off) = window g off r c := by
+  subst hw; rfl
+
+/-- one band: the block loop (any split whose offsets start at the window radius) followed by the reset of
+    the NaN cells computes the per-pixel formula of `coarseRanges` -/
+theorem rangeBand_cell (s : Blocks.Split) (disp : Multiscale.Grid Val) (flags : Multiscale.Grid Nat)
+    (w marge : Nat) (userMin userMax : Rat) (isMin : Bool)
+    (hy : s.beginY = (w - 1) / 2) (hx : s.beginX = (w - 1) / 2) (hodd : w % 2 = 1)
+    (hrows : w ≤ disp.rows) (hcols : w ≤ disp.cols) (r c : Nat) :
+    (if ((maskInvalid disp flags).get r c).isNan then
+        (if isMin then Val.num (ratTrunc userMin) else Val.num (ratTrunc userMax))
+      else Blocks.blocked (s.plan (disp.rows - w + 1) (disp.cols - w + 1) [disp.rows, disp.cols])
+        (rangeKernel (maskInvalid disp flags) w marge isMin)
+        (fun _ _ => if isMin then Val.num (ratTrunc userMin) else Val.num (ratTrunc userMax)) r c)
+      = coarseCell disp flags w marge userMin userMax r c isMin := by
+  rw [Blocks.blocked_eq_direct]
+  simp only [Blocks.direct, Blocks.Split.plan, hy, hx]
+  unfold coarseCell
+  dsimp only
+  have hw : w = 2 * ((w - 1) / 2) + 1 := by omega
+  have hiff : ((w - 1) / 2 ≤ r ∧ r < (w - 1) / 2 + (disp.rows - w + 1) ∧ (w - 1) / 2 ≤ c
+      ∧ c < (w - 1) / 2 + (disp.cols - w + 1)) ↔ interiorB ((w - 1) / 2) disp.rows disp.cols r c = true := by
+    rw [interiorB_iff]; omega
+  by_cases hi : interiorB ((w - 1) / 2) disp.rows disp.cols r c = true
+  · rw [if_pos (hiff.2 hi)]
+    simp only [hi, Bool.not_true, Bool.false_eq_true, ↓reduceIte]
+    unfold rangeKernel
+    rw [windowAt_centred _ w ((w - 1) / 2) r c hw]
+  · rw [if_neg (fun h => hi (hiff.1 h))]
+    have hi' : interiorB ((w - 1) / 2) disp.rows disp.cols r c = false := by simpa using hi
+    simp [hi']
+
+/-- **Block independence of `disparity_range`.**  For every disparity map and validity mask, every odd
+    window that fits in the map, every marge and user interval, and every split of the window array into
+    chunks (any `np.arange(start, stop, step)` on both axes — the step 100 of the source is one instance)
+    whose offsets start at the window radius `int((w - 1) / 2)`: the two maps filled chunk by chunk at
+    accumulated offsets are the maps `coarseRanges` computes pixel by pixel. -/
+theorem coarseRangesBlocked_eq (s : Blocks.Split) (disp : Multiscale.Grid Val) (flags : Multiscale.Grid Nat)
+    (w marge : Nat) (userMin userMax : Rat)
+    (hy : s.beginY = (w - 1) / 2) (hx : s.beginX = (w - 1) / 2) (hodd : w % 2 = 1)
+    (hrows : w ≤ disp.rows) (hcols : w ≤ disp.cols) :
+    coarseRangesBlocked s disp flags w marge userMin userMax = coarseRanges disp flags w marge userMin userMax := by
+  rw [coarseRanges_eq]
+  unfold coarseRangesBlocked rangeBandBlocked Blocks.tabulate
+  dsimp only
+  refine Prod.ext ?_ ?_
+  · dsimp only
+    apply List.map_congr_left
+    intro r _
+    apply List.map_congr_left
+    intro c _
+    exact rangeBand_cell s disp flags w marge userMin userMax true hy hx hodd hrows hcols r c
+  · dsimp only
+    apply List.map_congr_left
+    intro r _
+    apply List.map_congr_left
+    intro c _
+    exact rangeBand_cell s disp flags w marge userMin userMax false hy hx hodd hrows hcols r c
+
+/-- two splits with the same initial offsets give the same maps (no hypothesis on the window or the sizes) -/
+theorem coarseRangesBlocked_block_independent (s s' : Blocks.Split) (disp : Multiscale.Grid Val)
+    (flags : Multiscale.Grid Nat) (w marge : Nat) (userMin userMax : Rat)
+    (hy : s.beginY = s'.beginY) (hx : s.beginX = s'.beginX) :
+    coarseRangesBlocked s disp flags w marge userMin userMax
+      = coarseRangesBlocked s' disp flags w marge userMin userMax := by
+  unfold coarseRangesBlocked rangeBandBlocked
+  simp only [Blocks.blocked_eq_direct]
+  simp [Blocks.direct, Blocks.Split.plan, hy, hx]
+
+/-- the whole step through the block loop is the model the harness compares with the implementation -/
+theorem nextLevelGridsBlocked_eq (s : Blocks.Split) (disp : Multiscale.Grid Val) (flags : Multiscale.Grid Nat)
+    (w marge f : Nat) (userMin userMax : Rat) (fineRows fineCols : Nat)
+    (hy : s.beginY = (w - 1) / 2) (hx : s.beginX = (w - 1) / 2) (hodd : w % 2 = 1)
+    (hrows : w ≤ disp.rows) (hcols : w ≤ disp.cols) :
+    nextLevelGridsBlocked s disp flags w marge f userMin userMax fineRows fineCols
+      = nextLevelGrids disp flags w marge f userMin userMax fineRows fineCols := by
+  unfold nextLevelGridsBlocked
+  rw [coarseRangesBlocked_eq s disp flags w marge userMin userMax hy hx hodd hrows hcols, nextLevelGrids_eq]
+
+/-! ### 7. The statements for the loop literals found in fixed_zoom_pyramid.py on this run -/
+
+/-- the offsets the source starts from are the window radius of the model -/
+theorem source_multiscaleRange_offsets (w : Nat) :
+    (Generated.Blocks.multiscaleRange w).beginY = (w - 1) / 2
+    ∧ (Generated.Blocks.multiscaleRange w).beginX = (w - 1) / 2
+    ∧ 0 < (Generated.Blocks.multiscaleRange w).stepY ∧ 0 < (Generated.Blocks.multiscaleRange w).stepX
+    ∧ (Generated.Blocks.multiscaleRange w).stopYDim = 0 ∧ (Generated.Blocks.multiscaleRange w).stopXDim = 1 := by
+  refine ⟨rfl, rfl, ?_, ?_, rfl, rfl⟩ <;> simp [Generated.Blocks.multiscaleRange]
+
+/-- `disparity_range` with the chunk loop read in the source computes `coarseRanges` -/
+theorem source_multiscaleRange_spec (disp : Multiscale.Grid Val) (flags : Multiscale.Grid Nat) (w marge : Nat)
+    (userMin userMax : Rat) (hodd : w % 2 = 1) (hrows : w ≤ disp.rows) (hcols : w ≤ disp.cols) :
+    coarseRangesBlocked (Generated.Blocks.multiscaleRange w) disp flags w marge userMin userMax
+      = coarseRanges disp flags w marge userMin userMax :=
+  coarseRangesBlocked_eq _ disp flags w marge userMin userMax rfl rfl hodd hrows hcols
+
+/-- **Source loop + upsampling + crop = specification**: with the chunk loop read in the source, every fine
+    pixel inside the cropped upsampled grid searches the interval the statement gives its parent. -/
+theorem source_nextLevel_spec (disp : Multiscale.Grid Val) (flags : Multiscale.Grid Nat) (w marge f : Nat)
+    (userMin userMax : Rat) (fineRows fineCols i j : Nat) (hf : 1 ≤ f)
+    (hodd : w % 2 = 1) (hrows : w ≤ disp.rows) (hcols : w ≤ disp.cols)
+    (hi : i < fineRows) (hj : j < fineCols) (hiz : i < f * disp.rows) (hjz : j < f * disp.cols)
+    (hnum : Flags.isInvalid (flags.get (zoomIndex disp.rows f i) (zoomIndex disp.cols f j)) = false →
+      (disp.get (zoomIndex disp.rows f i) (zoomIndex disp.cols f j)).isNan = false) :
+    ((nextLevelGridsBlocked (Generated.Blocks.multiscaleRange w) disp flags w marge f userMin userMax
+        fineRows fineCols).1.get i j,
+     (nextLevelGridsBlocked (Generated.Blocks.multiscaleRange w) disp flags w marge f userMin userMax
+        fineRows fineCols).2.get i j)
+      = specInterval disp flags w marge f userMin userMax (zoomIndex disp.rows f i) (zoomIndex disp.cols f j) := by
+  rw [nextLevelGridsBlocked_eq _ disp flags w marge f userMin userMax fineRows fineCols rfl rfl hodd hrows hcols]
+  exact nextLevelGrids_eq_spec disp flags w marge f userMin userMax fineRows fineCols i j hf hi hj hiz hjz hnum
+
+/-! ### 8. Non-vacuity, and why `hnum` is needed -/
+
+/-- a 4 × 5 coarse map with one invalid pixel (bit 6) next to the interior -/
+def demoDisp : Multiscale.Grid Val :=
+  [[.num 1, .num 2, .num 3, .num 2, .num 1],
+   [.num 0, .num 4, .num (-2), .num 5, .num 1],
+   [.num 1, .num 3, .num 7, .num 2, .num 0],
+   [.num 2, .num 2, .num 1, .num 1, .num 3]]
+def demoFlags : Multiscale.Grid Nat :=
+  [[0, 0, 0, 0, 0], [0, 0, 64, 0, 0], [0, 0, 0, 4, 0], [0, 0, 0, 0, 0]]
+
+/-- fine pixel (3, 4) of the 7 × 9 finer level (factor 2): parent (1, 2) is invalid → user interval × 2;
+    fine pixel (4, 3): parent (2, 1) is a valid interior pixel of disparity 3 whose window holds the valid
+    values 0, 4, 1, 3, 7, 2, 2, 1 (the invalid −2 is ignored) → 2·[0 − 1, 7 + 1] ⊇ 2·[3 − 1, 3 + 1] -/
+example : zoomIndex 4 2 3 = 1 ∧ zoomIndex 5 2 4 = 2 ∧ zoomIndex 4 2 4 = 2 ∧ zoomIndex 5 2 3 = 1 := by decide
+example : (nextLevelGrids demoDisp demoFlags 3 1 2 (-7 / 2) (7 / 2) 7 9).1.get 3 4 = .num (-6)
+    ∧ (nextLevelGrids demoDisp demoFlags 3 1 2 (-7 / 2) (7 / 2) 7 9).2.get 3 4 = .num 6 := by decide +kernel
+example : (nextLevelGrids demoDisp demoFlags 3 1 2 (-7 / 2) (7 / 2) 7 9).1.get 4 3 = .num (-2)
+    ∧ (nextLevelGrids demoDisp demoFlags 3 1 2 (-7 / 2) (7 / 2) 7 9).2.get 4 3 = .num 16 := by decide +kernel
+/-- the hypotheses of `nextLevelGrids_eq_spec` / `fine_interval_contains_parent` hold there -/
+example : 1 ≤ 2 ∧ 4 < 7 ∧ 3 < 9 ∧ 4 < 2 * demoDisp.rows ∧ 3 < 2 * demoDisp.cols
+    ∧ interiorB ((3 - 1) / 2) demoDisp.rows demoDisp.cols 2 1 = true
+    ∧ Flags.isInvalid (demoFlags.get 2 1) = false ∧ demoDisp.get 2 1 = .num 3 := by decide +kernel
+/-- the specification rejects another interval: it is not trivially true -/
+example : specInterval demoDisp demoFlags 3 1 2 (-7 / 2) (7 / 2) 2 1 = (.num (-2), .num 16) := by decide +kernel
+
+/-- a split that really cuts the 2 × 3 window array of the 4 × 5 map (steps 1 and 2: 2 row chunks, 2 column
+    chunks) with offsets at the radius: hypotheses of `coarseRangesBlocked_eq` satisfiable, and the blocked
+    model really runs through several chunks -/
+def demoSplit : Blocks.Split :=
+  { startY := 1, stepY := 1, stopYDim := 0, startX := 2, stepX := 2, stopXDim := 1, beginY := 1, beginX := 1 }
+example : (Blocks.arraySplit 2 (Blocks.arange 1 4 1)).length = 4 ∧ (Blocks.arraySplit 3 (Blocks.arange 2 5 2)).length = 3
+    ∧ demoSplit.beginY = (3 - 1) / 2 ∧ 3 % 2 = 1 ∧ 3 ≤ demoDisp.rows ∧ 3 ≤ demoDisp.cols := by decide
+example : coarseRangesBlocked demoSplit demoDisp demoFlags 3 1 (-7 / 2) (7 / 2)
+    = coarseRanges demoDisp demoFlags 3 1 (-7 / 2) (7 / 2) := by decide +kernel
+/-- with the split read in the source: interior valid cell (2, 2), invalid cell (1, 2), border cell (0, 0) -/
+example : (coarseRangesBlocked (Generated.Blocks.multiscaleRange 3) demoDisp demoFlags 3 1 (-7 / 2) (7 / 2)).1.get 2 2 = .num 0
+    ∧ (coarseRangesBlocked (Generated.Blocks.multiscaleRange 3) demoDisp demoFlags 3 1 (-7 / 2) (7 / 2)).2.get 2 2 = .num 8
+    ∧ (coarseRangesBlocked (Generated.Blocks.multiscaleRange 3) demoDisp demoFlags 3 1 (-7 / 2) (7 / 2)).1.get 1 2 = .num (-3)
+    ∧ (coarseRangesBlocked (Generated.Blocks.multiscaleRange 3) demoDisp demoFlags 3 1 (-7 / 2) (7 / 2)).2.get 0 0 = .num 3 := by
+  decide +kernel
+/-- with offsets that do not start at the radius the chunk loop writes somewhere else: the hypothesis on
+    the offsets is not decorative -/
+example : coarseRangesBlocked { demoSplit with beginY := 0 } demoDisp demoFlags 3 1 (-7 / 2) (7 / 2)
+    ≠ coarseRanges demoDisp demoFlags 3 1 (-7 / 2) (7 / 2) := by decide +kernel
+
+/-- **Why `hnum`.**  A pixel that is *not* flagged invalid but whose disparity is NaN: the code
+    (`invalid_ind = where(isnan(tmp_disp_map))`) gives it the user interval, the statement ("valid coarse
+    disparities in the window around the parent, user interval when the parent is invalid") gives it the
+    window's interval.  Pandora writes NaN (`invalid_disparity: "NaN"`) on invalid pixels only, so the case
+    does not arise in a run; it is the exact boundary of the theorem. -/
+theorem nan_valid_parent_differs :
+    (nextLevelGrids [[.num 0, .num 0, .num 0], [.num 0, .nan, .num 0], [.num 0, .num 0, .num 0]]
+        [[0, 0, 0], [0, 0, 0], [0, 0, 0]] 3 0 1 (-5) 5 3 3).1.get 1 1 = .num (-5)
+    ∧ (specInterval [[.num 0, .num 0, .num 0], [.num 0, .nan, .num 0], [.num 0, .num 0, .num 0]]
+        [[0, 0, 0], [0, 0, 0], [0, 0, 0]] 3 0 1 (-5) 5 1 1).1 = .num 0 := by decide +kernel
+
 end Pandora.C15
